@@ -126,10 +126,18 @@ inductive Val where
   | list (l : List Int)
 deriving Repr, DecidableEq, Inhabited
 
+/-- a Python `slice(a, b, c)`; `none` = `None` (bound left out / step left out) -/
+structure Slc where
+  a : Option Int
+  b : Option Int
+  c : Option Int
+deriving Repr, DecidableEq, Inhabited
+
 inductive Idx where
   | none
   | int (i : Int)
   | slice (a b : Int)
+  | sliceX (s : Slc)
 deriving Repr, DecidableEq, Inhabited
 
 /-- the `AttributeDict` handed to a handler (owner = the one instance of the scenario) -/
@@ -170,6 +178,52 @@ def setSlice (d : List Int) (a b : Int) (vs : List Int) : List Int :=
 /-- `del data[a:b]` -/
 def delSlice (d : List Int) (a b : Int) : List Int := setSlice d a b []
 
+/-! ### extended slices: open bounds, steps other than 1, negative steps (CPython `PySlice_AdjustIndices`) -/
+
+/-- `slice.indices(len)`: (start, stop, step); `none` = step 0 (`ValueError`) -/
+def Slc.adjust (s : Slc) (len : Nat) : Option (Int × Int × Int) :=
+  let step := s.c.getD 1
+  if step = 0 then none
+  else
+    let L : Int := len
+    let adj (x : Option Int) (dflt : Int) : Int :=
+      match x with
+      | none => dflt
+      | some x =>
+        let x := if x < 0 then x + L else x
+        if x < 0 then (if step < 0 then -1 else 0)
+        else if x ≥ L then (if step < 0 then L - 1 else L)
+        else x
+    some (adj s.a (if step < 0 then L - 1 else 0), adj s.b (if step < 0 then -1 else L), step)
+
+/-- how many items the slice selects -/
+def sliceLen (start stop step : Int) : Nat :=
+  if step < 0 then (if stop < start then ((start - stop - 1) / (-step) + 1).toNat else 0)
+  else (if start < stop then ((stop - start - 1) / step + 1).toNat else 0)
+
+/-- the positions the slice selects, in the order of the slice -/
+def Slc.indices (s : Slc) (len : Nat) : Option (List Nat) :=
+  (s.adjust len).map fun (start, stop, step) =>
+    (List.range (sliceLen start stop step)).map fun (j : Nat) => (start + (j : Int) * step).toNat
+
+/-- `data[slice]` -/
+def getSliceX (d : List Int) (s : Slc) : Option (List Int) :=
+  (s.indices d.length).map fun idx => idx.map fun j => d.getD j 0
+
+/-- `data[slice] = vs`: step 1 splices (any number of items); another step needs exactly as many items as the slice
+    selects (`ValueError` otherwise) and sets them position by position -/
+def setSliceX (d : List Int) (s : Slc) (vs : List Int) : Option (List Int) :=
+  match s.adjust d.length, s.indices d.length with
+  | some (start, stop, step), some idx =>
+    if step = 1 then some (d.take start.toNat ++ vs ++ d.drop (max start stop).toNat)
+    else if vs.length ≠ idx.length then none
+    else some ((idx.zip vs).foldl (fun d (p : Nat × Int) => d.set p.1 p.2) d)
+  | _, _ => none
+
+/-- `del data[slice]`: the selected positions go -/
+def delSliceX (d : List Int) (s : Slc) : Option (List Int) :=
+  (s.indices d.length).map fun idx => (d.zipIdx.filter fun p => !idx.contains p.2).map (·.1)
+
 /-! ### SignalingList: primitives (each mutates, then notifies once) -/
 
 /-- `__setitem__` with an int index -/
@@ -191,6 +245,19 @@ def pDel (n : Nat) (d : List Int) (i : Int) : Except Err (List Int × Sig) :=
 /-- `__delitem__` with a slice -/
 def pDelSlice (n : Nat) (d : List Int) (a b : Int) : List Int × Sig :=
   (delSlice d a b, ⟨n, .remove, .list (getSlice d a b), .none, .slice a b⟩)
+
+/-- `__setitem__` with an extended slice: `old_value = self.data[index]` (step 0: `ValueError`), the assignment (wrong
+    number of items: `ValueError`), then one `replace` signal carrying the slice -/
+def pSetSliceX (n : Nat) (d : List Int) (s : Slc) (vs : List Int) : Except Err (List Int × Sig) :=
+  match getSliceX d s, setSliceX d s vs with
+  | some old, some d' => .ok (d', ⟨n, .replace, .list old, .list vs, .sliceX s⟩)
+  | _, _ => .error .value
+
+/-- `__delitem__` with an extended slice -/
+def pDelSliceX (n : Nat) (d : List Int) (s : Slc) : Except Err (List Int × Sig) :=
+  match getSliceX d s, delSliceX d s with
+  | some old, some d' => .ok (d', ⟨n, .remove, .list old, .none, .sliceX s⟩)
+  | _, _ => .error .value
 
 /-- `insert` -/
 def pInsert (n : Nat) (d : List Int) (i : Int) (v : Int) : List Int × Sig :=
@@ -273,6 +340,8 @@ inductive Op where
   | liadd (n : Nat) (vs : List Int)
   | lreverse (n : Nat)
   | lclear (n : Nat)
+  | lsetSliceX (n : Nat) (s : Slc) (vs : List Int)
+  | ldelSliceX (n : Nat) (s : Slc)
 deriving Repr, DecidableEq
 
 inductive Out where
@@ -308,12 +377,15 @@ def listOp (n : Nat) (d : List Int) : Op → Except Err (List Int × List Sig)
       .ok (d', ss ++ [⟨n, .change, .list d', .list d', .none⟩])
   | .lreverse _ => .ok (mReverse n d)
   | .lclear _ => .ok (mClear n (d.length + 1) d [])
+  | .lsetSliceX _ s vs => (pSetSliceX n d s vs).map fun (d', sg) => (d', [sg])
+  | .ldelSliceX _ s => (pDelSliceX n d s).map fun (d', sg) => (d', [sg])
   | _ => .error .attr
 
 /-- the observable an operation works on (for the list operations) -/
 def Op.listName : Op → Option Nat
   | .lset n .. | .lsetSlice n .. | .ldel n .. | .ldelSlice n .. | .linsert n .. | .lappend n ..
-  | .lpop n .. | .lremove n .. | .lextend n .. | .liadd n .. | .lreverse n | .lclear n => some n
+  | .lpop n .. | .lremove n .. | .lextend n .. | .liadd n .. | .lreverse n | .lclear n
+  | .lsetSliceX n .. | .ldelSliceX n .. => some n
   | _ => none
 
 def step (s : St) (op : Op) : St × Out :=
@@ -375,6 +447,8 @@ def applySig (d : List Int) (sig : Sig) : Option (List Int) :=
       | some j => if d.getD j 0 = o then some (d.set j v) else none
       | none => none
   | .replace, .list o, .list vs, .slice a b => if getSlice d a b = o then some (setSlice d a b vs) else none
+  | .remove, .list o, .none, .sliceX s => if getSliceX d s = some o then delSliceX d s else none
+  | .replace, .list o, .list vs, .sliceX s => if getSliceX d s = some o then setSliceX d s vs else none
   | _, _, _, _ => none
 
 def replay (d : List Int) : List Sig → Option (List Int)
